@@ -27,6 +27,10 @@ ASSUMPTIONS = [
     "KeplerNum(method='rk4') is the classical Runge-Kutta method (its step is reproduced bit for bit by "
     "the oracle on maneuver-free steps, which is checked); Earth point mass only; step 30-120 s; "
     "10-30 steps; forward propagation from the orbit's own date with the propagator's own step",
+    "impulse_adaptive: rkf54 / dopri54 at the default tolerance, requested step 45-120 s on orbits with perigee below "
+    "1.6 R (the step is reduced on most of them), observed through iter(real_steps=True); free arcs between accepted "
+    "steps are compared with exact two-body propagation (integrator error 1e-7 m/s per step, allowance 1e-5 m/s; "
+    "impulses >= 1e-2 m/s)",
     "an impulse may take effect anywhere between its date and one step later: magnitude is checked "
     "sharply (2 theta^2, theta = angle swept in one step), direction to 1.5 theta",
     "continuous burns last 0.2 .. 8 steps, or (1 case in 9) 2 h .. 2 days on a MEO / GEO orbit at a 120 s step; "
@@ -44,8 +48,8 @@ ASSUMPTIONS = [
     "built-in frame of the oracle's inputs done by the library on fresh objects (C02)",
 ]
 LEVEL_TEXT = "exploration"
-LEVEL_NOTE = ("Randomised search; the adaptive integrators (rkf54, dopri54) and backward propagation are not "
-              "exercised with maneuvers.")
+LEVEL_NOTE = ("Randomised search; continuous burns under the adaptive integrators and backward propagation are not "
+              "exercised.")
 TECHNIQUE = "property-based testing (Hypothesis), per-step defect analysis against a textbook RK4 step, fine-step reference integration"
 
 TWO_PI = 2 * math.pi
@@ -701,6 +705,137 @@ def check_impulse(case):
     return dict(nt=nt, cls=cls, ratio=worst, parts=dict(sharp=worst, direction=dirfrac, kep=kepfrac))
 
 
+# ------------------------------------------------------------------ impulses under adaptive step control
+
+
+@st.composite
+def adaptive_case(draw):
+    el = draw(go.elements(hyperbolic=False, emax_ell=0.8, rp_range=(1.03, 1.6)))
+    h_us = draw(st.integers(45, 120)) * 10**6 if draw(st.booleans()) else draw(go.uniform_int(45 * 10**6, 120 * 10**6))
+    n = draw(st.integers(15, 40))
+    span = n * h_us
+    mans = []
+    for _ in range(draw(st.integers(1, 3))):
+        k = draw(st.integers(0, 5))
+        if k == 0:
+            t = draw(st.integers(1, n - 1)) * h_us          # on the requested grid
+        else:
+            t = draw(go.uniform_int(1, span - 1))
+        mans.append(dict(t=t, dv=draw(vec3(-2.0, 2.0)), tag=draw(st.sampled_from(TAGS))))
+    return dict(el=el, h_us=h_us, n=n, method=draw(st.sampled_from(["rkf54", "dopri54"])),
+                t0=draw(go.uniform_int(0, 5 * 365 * 86400 * 10**6)), mans=mans)
+
+
+def check_adaptive(case):
+    """rkf54 / dopri54: the state is observed at the accepted steps (real_steps=True).  Between two consecutive
+    points the motion is the free two-body arc (exact propagation, the integrator's own error is 1e-7 m/s per step
+    at the default tolerance) except where a maneuver date falls: there the jump must be one application of dv."""
+    from beyond.dates import timedelta
+    from beyond.env.solarsystem import get_body
+    from beyond.orbits import Orbit
+    from beyond.orbits.man import ImpulsiveMan
+    from beyond.propagators.keplernum import KeplerNum
+
+    mu = mu_earth()
+    el = case["el"]
+    c0 = cart(el, mu)
+    d0 = mkdate(case["t0"])
+    h_us, n = case["h_us"], case["n"]
+    span = n * h_us / 1e6
+    cap = dv_cap(c0, span * 1.1, mu)
+    tot_dv = sum(float(np.linalg.norm(m["dv"])) for m in case["mans"])
+    specs = case["mans"]
+    if tot_dv > cap:
+        specs = [dict(m, dv=[x * cap / tot_dv for x in m["dv"]]) for m in specs]
+    orb = Orbit(c0, d0, "cartesian", "EME2000",
+                KeplerNum(timedelta(microseconds=h_us), get_body("Earth"), method=case["method"]))
+    orb.maneuvers = [ImpulsiveMan(d0 + timedelta(microseconds=m["t"]), list(m["dv"]), frame=m["tag"]) for m in specs]
+    ts, ys = [], []
+    for o in orb.iter(stop=d0 + timedelta(microseconds=n * h_us), real_steps=True):
+        y = np.array(o.copy(form="cartesian").base, float)
+        if not np.all(np.isfinite(y)):
+            raise Violation("propagation-nonfinite", f"point {len(ys)} of the {case['method']} propagation is {y.tolist()}")
+        ts.append((o.date - d0).total_seconds())
+        ys.append(y)
+    if len(ys) < 2 or ts[0] != 0.0 or any(b <= a for a, b in zip(ts, ts[1:])):
+        raise Violation("grid-dates", f"dates of the accepted steps are not increasing from the epoch: {ts[:5]} ...")
+    if ts[-1] < span - 1e-6:
+        raise Violation("grid-length", f"propagation stops at {ts[-1]} s, before the requested {span} s")
+    nst = len(ys) - 1
+    res = [ys[j + 1] - tb.propagate_uv(ys[j], ts[j + 1] - ts[j], mu) for j in range(nst)]
+    QUIET_R, QUIET_V = 1e-2, 1e-5      # m, m/s : 100 x the integrator's own error per step
+    allowed = {}
+    for idx, m in enumerate(specs):
+        tm = m["t"] / 1e6
+        for j in range(nst):
+            if ts[j] - 2e-6 <= tm <= ts[j + 1] + 2e-6:
+                allowed.setdefault(j, []).append(idx)
+    steps = sorted(allowed)
+    clusters = []
+    for j in steps:
+        if clusters and clusters[-1][-1] == j - 1:
+            clusters[-1].append(j)
+        else:
+            clusters.append([j])
+    worst = 0.0
+    dirfrac = 0.0
+    inside = set(steps)
+    for j in range(nst):
+        if j in inside:
+            continue
+        dr, dv = float(np.linalg.norm(res[j][:3])), float(np.linalg.norm(res[j][3:]))
+        worst = max(worst, dr / QUIET_R, dv / QUIET_V)
+        if dr > QUIET_R or dv > QUIET_V:
+            raise Violation("impulse-outside-its-step",
+                            f"{case['method']}, requested step {h_us / 1e6} s: the accepted step [{ts[j]}, {ts[j + 1]}] s contains no "
+                            f"maneuver date (maneuvers at {[m['t'] / 1e6 for m in specs]} s) but the state departs by {dr:.6g} m, "
+                            f"{dv:.6g} m/s from the free arc", step=j)
+    for cl in clusters:
+        ids = sorted({i for j in cl for i in allowed[j]})
+        tot = sum(res[j] for j in cl)
+        theta = sum(theta_of(ys, j, ts[j + 1] - ts[j]) for j in cl)
+        want = np.zeros(3)
+        mags = []
+        for i in ids:
+            m = specs[i]
+            j0 = min(j for j in cl if i in allowed[j])
+            y_at = tb.propagate_uv(ys[j0], m["t"] / 1e6 - ts[j0], mu)
+            w = ig.to_inertial(m["dv"], y_at, m["tag"].upper() if m["tag"] else None)
+            want = want + w
+            mags.append(float(np.linalg.norm(w)))
+        total = sum(mags)
+        pair = sum(a * b for x, a in enumerate(mags) for b in mags[x + 1:]) * 2 / min(vperp(ys[j]) for j in cl)
+        got = tot[3:]
+        if len(ids) == 1:
+            d = abs(float(np.linalg.norm(got)) - total)
+            tol = total * (2 * theta**2 + 1e-9) + QUIET_V * len(cl)
+            worst = max(worst, d / tol)
+            if d > tol:
+                raise Violation("impulse-magnitude",
+                                f"{case['method']}, requested step {h_us / 1e6} s, accepted {ts[cl[0] + 1] - ts[cl[0]]:.3f} s: maneuver at "
+                                f"{specs[ids[0]]['t'] / 1e6} s, velocity jumps by {np.linalg.norm(got)!r} m/s over [{ts[cl[0]]}, "
+                                f"{ts[cl[-1] + 1]}] s, stated |dv| = {total!r} m/s", steps=cl)
+        d = float(np.linalg.norm(got - want))
+        tol = total * 1.5 * theta + pair + QUIET_V * len(cl)
+        dirfrac = max(dirfrac, d / tol)
+        if d > tol:
+            raise Violation("impulse-delivery",
+                            f"{case['method']}: maneuvers at {[specs[i]['t'] / 1e6 for i in ids]} s should add {want.tolist()} m/s within "
+                            f"[{ts[cl[0]]}, {ts[cl[-1] + 1]}] s; the library added {got.tolist()} (diff {d:.6g}, allowance {tol:.3g})",
+                            steps=cl)
+    hs = np.diff(ts)
+    reduced = bool(np.min(hs[:-1] if len(hs) > 1 else hs) < 0.99 * h_us / 1e6)
+    cls = el_classes(el) + [case["method"], f"mans:{len(specs)}", "step-reduced" if reduced else "step-as-requested"]
+    if reduced:
+        r = float(np.min(hs)) / (h_us / 1e6)
+        cls.append("accepted<0.6h" if r < 0.6 else "accepted<h")
+    for m in specs:
+        cls.append("on-requested-grid" if m["t"] % h_us == 0 else "off-grid")
+    if tot_dv > cap:
+        cls.append("dv-capped")
+    return dict(nt=reduced, cls=cls, ratio=worst, parts=dict(sharp=worst, direction=dirfrac))
+
+
 # ------------------------------------------------------------------ continuous delivery
 
 
@@ -1019,6 +1154,9 @@ FACETS = [
     Facet("impulse_timing", lambda s, t: impulse_case(), check_impulse, setup=setup,
           rule="a maneuver date off the integration grid, or a hyperbolic state",
           quick=(8, 60), thorough=(16, 600)),
+    Facet("impulse_adaptive", lambda s, t: adaptive_case(), check_adaptive, setup=setup,
+          rule="the error control actually reduced the requested step (class step-reduced)",
+          quick=(8, 40), thorough=(16, 400)),
     Facet("continuous_delivery", lambda s, t: continuous_case(), check_continuous, setup=setup,
           rule="a burn edge off the integration grid, or a hyperbolic state",
           quick=(16, 20), thorough=(32, 200)),
